@@ -78,7 +78,7 @@ enum NavigateInput {
 }
 
 #[doc(hidden)]
-#[cfg_attr(feature = "verif-hooks", derive(Clone))]
+#[cfg_attr(feature = "verif-hooks", derive(Clone, Hash))]
 pub struct Cli<W: Write<Error = E>, E: Error, CommandBuffer: Buffer, HistoryBuffer: Buffer> {
     editor: Option<Editor<CommandBuffer>>,
     #[cfg(feature = "history")]
@@ -501,6 +501,20 @@ where
 
     pub fn __verif_prompt(&self) -> &'static str {
         self.prompt
+    }
+
+    /// Hash over every field of the struct (dead decoder bytes zeroed first; the writer and the buffers
+    /// contribute what their own `Hash` impls choose): state that a change adds to `Cli` itself, or to any
+    /// struct inside it, becomes part of a harness's state key without the harness knowing its name
+    pub fn __verif_struct_hash(&self) -> u64
+    where
+        Self: Clone + core::hash::Hash,
+    {
+        let mut c = self.clone();
+        if let Some(g) = c.input_generator.as_mut() {
+            g.__verif_canonicalize();
+        }
+        crate::editor::__verif_hash_of(&c)
     }
 
     pub fn __verif_writer(&self) -> &W {
